@@ -244,10 +244,13 @@ func (g *gen) receiveCase(w *world) {
 
 // fail (or shorten) the k-th randomness read of one party during a fixed scenario, for k = 0, 1, 2, …
 func (g *gen) randFailureSweep(w *world, short bool) {
-	for k := 0; k < 40; k++ {
+	for k2 := 0; k2 < 160; k2++ {
+		// every index four times: both versions, with traffic after the handshake and with End()
+		// straight after it
+		k, endAtOnce := k2/4, k2%2 == 1
 		w.parties = map[string]*party{}
 		w.dead = false
-		version := 2 + g.r.Intn(2)
+		version := 2 + (k2/2)%2
 		pol := 2
 		if version == 3 {
 			pol = 4
@@ -272,6 +275,9 @@ func (g *gen) randFailureSweep(w *world, short bool) {
 			func() { ts, _ := w.send(b, g.cleanText()); l.enqueue(b, ts); l.settle(10) },
 			func() { ts, _ := w.end(a); l.enqueue(a, ts); l.settle(10) },
 		}
+		if endAtOnce {
+			steps = steps[len(steps)-1:]
+		}
 		replayed := false
 		for i, s := range steps {
 			if w.dead {
@@ -295,13 +301,49 @@ func (g *gen) randFailureSweep(w *world, short bool) {
 				}
 			}
 		}
+		// whatever failed on the way: End() ends the session and erases its keys (C08, C18)
+		if !w.dead {
+			olog.ok("C08")
+			if a.c.IsEncrypted() {
+				olog.viol("C08", "end-leaves-session-open-after-randomness-failure", fmt.Sprintf("OTRv%d: after read %d (short=%v) of Conversation.Rand failed, End() leaves the conversation encrypted with its keys in place", version, k, short))
+			}
+		}
 		olog.ok("C13")
 		reads := a.rnd.reads
 		if w.dead {
 			olog.viol("C13", "panic-after-randomness-failure", fmt.Sprintf("OTRv%d: failing read %d (short=%v) of Conversation.Rand led to a panic", version, k, short))
 		}
-		if k >= reads {
-			break // the scenario draws fewer reads than k: all indices covered
+		if k >= reads && k2%4 == 2 {
+			break // the (longer, OTRv3) scenario draws fewer reads than k: all indices covered
+		}
+	}
+}
+
+
+// randomness that does not fail but is degenerate: tiny DH exponents (all-zero bytes and the like)
+func (g *gen) degenerateRandomness(w *world) {
+	for _, version := range []int{2, 3} {
+		for _, last := range []byte{0, 1, 5, 87, 88, 200} {
+			w.parties = map[string]*party{}
+			w.dead = false
+			pol, q := 2, []byte("?OTRv2?")
+			if version == 3 {
+				pol, q = 4, []byte("?OTRv3?")
+			}
+			a := w.newParty(partyCfg{policies: pol, keyIdx: 0, errh: true, tag: 0x1234})
+			b := w.newParty(partyCfg{policies: pol, keyIdx: 1, errh: true})
+			x := make([]byte, 40)
+			x[39] = last
+			a.rnd.forced = [][]byte{x, make([]byte, 16), x, x}
+			b.rnd.forced = [][]byte{x}
+			l := &link{w: w, a: a, b: b}
+			_, ts, _, _ := w.recv(a, q)
+			l.enqueue(a, ts)
+			l.settle(20)
+			olog.ok("C13")
+			if w.dead {
+				olog.viol("C13", "panic-with-degenerate-randomness", fmt.Sprintf("OTRv%d: a key exchange whose randomness source delivers the DH exponent %d (40 bytes, no read fails) panics", version, last))
+			}
 		}
 	}
 }
@@ -319,6 +361,7 @@ func init() {
 		}
 		g.randFailureSweep(w, false)
 		g.randFailureSweep(w, true)
+		g.degenerateRandomness(w)
 		extra["panics"] = panicCount
 		olog.export(extra)
 		return g.dist
